@@ -220,6 +220,7 @@ def execute(plan):
     _invariants(np, ifg, mdl, -1, "init", _cache_bits(ifg), viol)
 
     prev_mutating = False
+    shadows = []
     for i, op in enumerate(plan["ops"]):
         k = op["op"]
         bits = _cache_bits(ifg)
@@ -241,8 +242,16 @@ def execute(plan):
             elif k == "stats":
                 ifg.pv, ifg.rms, ifg.Sa, ifg.std, ifg.dropout_percentage
             elif k == "copy":
+                orig = ifg
                 ifg = ifg.copy()
                 bump(faults, "snapshot_restore")
+                if len(shadows) < 2:
+                    # keep the original: whatever happens to the copy later must not reach it
+                    m0 = _Model()
+                    m0.shape, m0.dx, m0.valid, m0.scale = mdl.shape, mdl.dx, mdl.valid.copy(), mdl.scale
+                    snap = {w: (None if getattr(orig, "_" + w, None) is None else np.array(getattr(orig, "_" + w)))
+                            for w in "xyrt"}
+                    shadows.append((i, orig, m0, orig.data.copy(), snap))
             elif k == "precision":
                 if config.precision != (np.float32 if op["bits"] == 32 else np.float64):
                     bump(faults, "precision_flip")
@@ -435,6 +444,16 @@ def execute(plan):
         par = f"{mdl.shape[0] % 2}{mdl.shape[1] % 2}"
         trans.add(f"{bits}|{int(bool(getattr(ifg, '_latcaled', 0)))}|{int(not mdl.valid.all())}|{par}|{k}|{out[:10]}")
 
+    # originals left behind by copy(): untouched by anything done to the copy since
+    for (ci, orig, m0, data0, snap) in shadows:
+        bits0 = _cache_bits(orig)
+        if not _nan_eq(np, orig.data, data0):
+            viol("copy-isolated", ci, "copy", bits0, what="data")
+        for w, a0 in snap.items():
+            a1 = getattr(orig, "_" + w, None)
+            if a0 is not None and (a1 is None or np.shape(a1) != a0.shape or not np.array_equal(np.asarray(a1), a0)):
+                viol("copy-isolated", ci, "copy", bits0, what=w)
+        bump(probes, "copy_shadow_checked")
     nontrivial = state_changes >= 1 and any(e["op"] == "read" for e in events)
     return {"events": events, "violations": violations[:20], "faults": faults, "probes": probes,
             "trans": sorted(trans), "nontrivial": nontrivial}
